@@ -108,7 +108,7 @@ def _fallback(ctx, repo):
         for c in calls_in(f.node):
             if isinstance(c.func, ast.Name) and c.func.id in fns:
                 sites.append((f, c))
-    ctx.floor("C05-R2", "compiled-first call sites", len(sites), 3)
+    ctx.floor("C05-R2", "compiled-first call sites", len(sites), 2)
     for f, c in sites:
         arm = next((src(t) for t, pol in path_conditions(c, f.node) if pol and isinstance(t, ast.Call) and isinstance(t.func, ast.Attribute) and t.func.attr.startswith("is_")), "__call__")
         ctx.instance("C05-R2", f.fq, f"compiled call ({arm})")
@@ -124,11 +124,14 @@ def _fallback(ctx, repo):
         for h in tr.handlers:
             falls = not any(isinstance(n, (ast.Raise, ast.Return)) for n in ast.walk(h))
             ctx.ob("C05-R2", f.fq, "the handler falls through to the interpreter path (no raise/return)", falls, node=h, construct=f"handler falls through ({arm})")
-            eff = [n for s in h.body for n in walk_local(s) if isinstance(n, (ast.Assign, ast.AugAssign, ast.Delete, ast.Call))]
+            # binding a local (e.g. a 'not compiled' marker for the code after the try) is not an effect; stores elsewhere and calls are
+            eff = [n for s in h.body for n in walk_local(s) if isinstance(n, (ast.AugAssign, ast.Delete, ast.Call)) or
+                   (isinstance(n, ast.Assign) and not (all(isinstance(t, ast.Name) for t in n.targets) and isinstance(n.value, (ast.Name, ast.Constant))))]
             ctx.ob("C05-R2", f.fq, "the handler has no side effect", not eff, node=h, construct=f"handler effect free ({arm})")
         # try body: only the argument fetch and the call
         extra = [s for s in tr.body if not (isinstance(s, ast.Return) and c in list(ast.walk(s))) and not (
-            isinstance(s, ast.Assign) and isinstance(s.value, ast.ListComp) and "_context" in src(s.value))]
+            isinstance(s, ast.Assign) and isinstance(s.value, ast.ListComp) and "_context" in src(s.value)) and not (
+            isinstance(s, ast.Assign) and all(isinstance(t, ast.Name) for t in s.targets) and s.value is c)]       # `r = fn(*args)`: the result kept in a local
         ctx.ob("C05-R2", f.fq, "nothing but the argument fetch and the compiled call inside the try", not extra, node=tr, construct=f"try body minimal ({arm})",
                msg="statements with effects sit inside the compiled-first try: on a fallback they have already happened")
         # the interpreter path follows the try
